@@ -20,6 +20,21 @@ def handle (op : String) (args : List String) : Option Ans :=
     match n.toNat?, ofHex payload with
     | some n, some p => some (outBytes (deFixed n (encOf fmt p)), "n/a")
     | _, _ => none
+  | "tryfrom", [cont, n, payload] =>
+    match n.toNat?, ofHex payload with
+    | some n, some p =>
+      if cont == "keypair" then
+        let h := p.length / 2
+        some ((match tryFromSlice 32 (p.take h), tryFromSlice 32 (p.drop h) with
+               | .ok a, .ok b => okHex (a ++ b)
+               | _, _ => "err"), "n/a")
+      else if cont == "signkeypair" then
+        let h := p.length / 3
+        some ((match tryFromSlice 32 (p.take h), tryFromSlice 64 (p.drop h) with
+               | .ok a, .ok b => okHex (a ++ b)
+               | _, _ => "err"), "n/a")
+      else some (outBytes (tryFromSlice n p), "n/a")
+    | _, _ => none
   | "serde_bytes", [_cont, fmt, payload] =>
     match ofHex payload with
     | some p => some (outBytes (deHeap (encOf fmt p)), "n/a")
